@@ -720,10 +720,27 @@ func (r *RowCache) uuidsByConditionsAsIndexes(conditions []ovsdb.Condition, nati
 		return nil
 	}
 
+	// the subsets double with every condition that can be used as an index:
+	// beyond a few of them looking at every row is cheaper than looking at
+	// every subset
+	indexable := 0
+	for i, condition := range conditions {
+		if toIndexableCondition(condition, nativeValues[i]) != nil {
+			indexable++
+		}
+	}
+	if indexable > maxIndexableConditions {
+		return nil, nil
+	}
+
 	// finally
 	err := matchUUIDsFromConditionsPowerSet()
 	return matching, err
 }
+
+// maxIndexableConditions is the number of conditions up to which the indexes
+// are tried on the subsets of the conditions
+const maxIndexableConditions = 10
 
 // RowsByCondition searches models in the cache that match all conditions
 func (r *RowCache) RowsByCondition(conditions []ovsdb.Condition) (map[string]model.Model, error) {
